@@ -124,6 +124,7 @@ pub fn build_file(c: &XzCase, orig_check: u8) -> Option<XzFile> {
         "fnull" => f.fflags0 = m.v as u8,
         "fmagic" => f.fmagic_xor = 0x20,
         "idxN" => f.idx_count = Some(m.v as u64),
+        "idxFewer" => f.idx_keep = Some(m.v as usize),
         "backward" => f.backward = Some(m.v as u32),
         "trailing" => f.trailing = vec![0u8; m.v as usize],
         "reserved" => f.blocks[bi].flags_or = m.v as u8,
@@ -202,9 +203,52 @@ pub fn check_case(c: &XzCase, prop: &str, rep: &mut Report) -> bool {
             }
         }
     }
+    // history: a decode that fails late inside a block (bad block check / input ending inside the block) happens
+    // on this thread right before; nothing it leaves behind may change the verdict on the next file
+    if c.accept {
+        let bi = lay.fields.iter().find(|(n, s, e)| n.ends_with(".check") && e > s).or_else(|| lay.fields.iter().find(|(n, _, _)| n.ends_with(".payload")));
+        if let Some((name, s0, e0)) = bi {
+            let mut bad = lay.bytes.clone();
+            if name.ends_with(".check") {
+                bad[*s0] ^= 0x40;
+            } else {
+                bad.truncate(*e0);
+            }
+            let _ = api::xz_bytes(&bad);
+            rep.count("preceded_by_failed_decode");
+        }
+    }
     let o = api::xz_bytes(&lay.bytes);
     let content = f.content();
     let mut vs = vec![];
+    if !c.accept && o.verdict == Verdict::Err && lay.bytes.len() < 4000 {
+        // C06 / C18 hold for whatever BufRead the caller has: the rejection must not depend on how the source
+        // exposes the bytes (1-byte fragments, odd fragments, and every two-fragment split near the end of the
+        // file, where the footer fields and anything that follows them sit)
+        let n = lay.bytes.len();
+        let mut fragsets: Vec<Vec<usize>> = vec![vec![1], vec![3, 1, 2], vec![7]];
+        let tail = 16 + f.trailing.len();
+        for k in n.saturating_sub(tail)..n {
+            if k > 0 {
+                fragsets.push(vec![k, n]);
+            }
+        }
+        // header padding of the mutated block ends where its CRC starts: splits inside it
+        if let Some((_, s0, _)) = lay.fields.iter().find(|(nm, _, _)| c.mutation.b >= 1 && *nm == format!("b{}.hcrc", c.mutation.b - 1)) {
+            for k in s0.saturating_sub(6)..=*s0 {
+                fragsets.push(vec![k.max(1), 2, n]);
+            }
+        }
+        for frags in fragsets {
+            let mut src = crate::d_reader::LogSrc::new(&lay.bytes, frags.clone(), false);
+            let mut out = vec![];
+            let r = crate::io::catch(|| lzma_rs::xz_decompress(&mut src, &mut out).is_ok());
+            if matches!(r, crate::io::Caught::Done(true)) {
+                vs.push(format!("accepted when the source exposes fragments {:?} although the specification rejects it and the whole-buffer decode does (mutated field: {} block {} value {})", frags, c.mutation.f, c.mutation.b, c.mutation.v));
+                break;
+            }
+        }
+    }
     if c.accept && o.verdict == Verdict::Ok && lay.bytes.len() < 4000 {
         // C03 says "decompression succeeds" - through whatever BufRead the caller has
         for frags in [vec![1usize], vec![5, 2]] {
